@@ -56,7 +56,7 @@ REQUIRED = {"requests": 2000, "not_offered_requests": 800, "offered_accepted": 1
             # directed stratum: requests cancelled / forced while they wait in the command manager
             "directed_methods_with_waiting_requests": 60, "directed_methods_same": 25, "directed_methods_raiser": 10,
             "directed_methods_mixed": 2, "directed_methods_lane_main": 8, "directed_methods_lane_inject": 8,
-            "directed_methods_lane_macro": 5, "directed_methods_two_requests_waiting_at_once": 4,
+            "directed_methods_lane_macro": 5, "directed_methods_two_requests_waiting_at_once": 3,
             "waiting_cancel_requests": 250, "waiting_cancel_accepted_pause_hold": 150, "waiting_cancel_accepted_uod": 6,
             "waiting_cancel_never_started_judged": 160, "waiting_cancel_state_bound_judged": 120,
             "waiting_cancel_not_offered_judged": 30, "waiting_force_not_offered_judged": 80,
@@ -165,6 +165,8 @@ def gen_directed(rnd: random.Random):
                 t = shape
             free = False
         lanes.append(t)
+    if fam == "same" and k == 3 and rnd.random() < 0.5:
+        lanes = [shape] * 3         # three handlers in lockstep: two requests wait at once
     pad = rnd.choice((0, 0, 1))
     pads = [pad + (1 if rnd.random() < 0.1 else 0) for _ in cmds]
     n = [0]
